@@ -76,7 +76,7 @@ class work(Event):
 class C09(Prop):
     id = 'C09'
     rule = ('timer sets (1-5 timers; intervals from {0,0.25,0.5,0.5,1,1.2,3} or a datetime deadline; persistent or one-shot; '
-            'created, reset (optionally to a new interval) and unregistered at generated virtual times, reset() right behind unregister() or from a one-shot timer's own handler) running with ordinary '
+            'created, reset (optionally to a new interval) and unregistered at generated virtual times, reset() right behind unregister() or from the own handler of a one-shot timer) running with ordinary '
             'events and an optional generator task, under the real run() with the real fallback idle handler on a virtual '
             'clock, horizon <=6 virtual s; non-trivial = >=2 timers with different expiries pending during one idle wait, or a '
             'reset/unregister between two firings of a timer; distinct = spec hash')
